@@ -36,8 +36,6 @@ const (
 	relTol       = 1e-4        // permutation relations (the optimiser stops on a step < 1e-6)
 	dblMin       = 2.2250738585072014e-308
 	aa20         = "ARNDCQEGHILKMFPSTWYV" // state order of the model matrices
-	keyLocalMax  = "protein-local-maximum"
-	keyEarlyStop = "protein-early-stop"
 )
 
 var modelNames = []string{"dayoff", "jtt", "mtrev", "lg", "wag", "hivb", "ab"} // as spelled by -m
@@ -449,21 +447,17 @@ var grid = func() []float64 {
 // than lkTol. curved tells whether the likelihood drops measurably around d (otherwise the position
 // of the maximum is not determined to better than a few percent).
 //
-// When err is not nil, sig lists the signatures of known findings that explain the failure completely
-// (empty: none does, the failure is a plain violation):
-//
-//   - keyEarlyStop: a nearby distance is better, but d lies within 5 % of a local maximum m of the
-//     likelihood (the best point of a 401-point scan of [0.95 d, 1.05 d] is interior): the search
-//     stopped before reaching m. The grid test is then applied to m instead of d.
-//   - keyLocalMax: d (or m) passes the nearby test, a grid distance has a higher likelihood, and
-//     between the two the likelihood falls below the one of d (a valley): the likelihood of the pair
-//     has several local maxima and the one reported is not the highest.
-func (rd *reading) maximal(entries []pairEntry, d float64) (err error, curved bool, sig []string) {
+// The error message says what kind of failure it is (both kinds were genuine defects of the optimiser,
+// repaired by f7984a1 and 20826a6, see FINDINGS.md):
+//   - early stop: a nearby distance is better and d lies within 5 % of a local maximum of the
+//     likelihood (the best point of a 401-point scan of [0.95 d, 1.05 d] is interior);
+//   - lower local maximum: d passes the nearby test, a grid distance has a higher likelihood and
+//     between the two the likelihood falls below the one of d (a valley).
+func (rd *reading) maximal(entries []pairEntry, d float64) (err error, curved bool) {
 	ld := rd.logLk(entries, d)
 	if math.IsNaN(ld) {
-		return fmt.Errorf("likelihood undefined at the reported distance"), false, nil
+		return fmt.Errorf("likelihood undefined at the reported distance"), false
 	}
-	ref, lref := d, ld
 	curved = true
 	for _, f := range []float64{1 - 1e-3, 1 + 1e-3, 1 - 1e-2, 1 + 1e-2} {
 		lt := rd.logLk(entries, d*f)
@@ -475,48 +469,37 @@ func (rd *reading) maximal(entries []pairEntry, d float64) (err error, curved bo
 		}
 	}
 	if err != nil {
-		// not a local maximum: is one within 5 %?
 		const n = 400
-		best := -1
+		best, ref, lref := -1, d, ld
 		for k := 0; k <= n; k++ {
 			t := d * (0.95 + 0.1*float64(k)/n)
 			if lt := rd.logLk(entries, t); lt > lref {
 				ref, lref, best = t, lt, k
 			}
 		}
-		if best <= 0 || best >= n || ref < blMin || ref > blMax {
-			return err, false, nil
+		if best > 0 && best < n {
+			err = fmt.Errorf("%v (the search stopped %.2f %% away from the local maximum %.10g, lnL = %.10f)", err, 100*math.Abs(d/ref-1), ref, lref)
 		}
-		err = fmt.Errorf("%v; the search stopped %.2f %% away from the local maximum %.10g (lnL = %.10f)", err, 100*math.Abs(d/ref-1), ref, lref)
-		sig = append(sig, keyEarlyStop)
-		curved = false
+		return err, false
 	}
 	lg := make([]float64, len(grid))
 	best := -1
 	for k, t := range grid {
 		lg[k] = rd.logLk(entries, t)
-		if lg[k] > lref+lkTol && (best < 0 || lg[k] > lg[best]) {
+		if lg[k] > ld+lkTol && (best < 0 || lg[k] > lg[best]) {
 			best = k
 		}
 	}
 	if best < 0 {
-		return err, curved, sig
+		return nil, curved
 	}
-	// a better grid distance: is it beyond a valley?
 	valley := false
-	lo, hi := math.Min(ref, grid[best]), math.Max(ref, grid[best])
+	lo, hi := math.Min(d, grid[best]), math.Max(d, grid[best])
 	for k := 1; k < 300 && !valley; k++ {
 		t := lo * math.Pow(hi/lo, float64(k)/300)
-		valley = rd.logLk(entries, t) < lref-1e-9
+		valley = rd.logLk(entries, t) < ld-1e-9
 	}
-	gerr := fmt.Errorf("lnL(%.10g) = %.10f but the grid distance %.6g has lnL = %.10f (separated from it by a valley of the likelihood: %v)", ref, lref, grid[best], lg[best], valley)
-	if err != nil {
-		gerr = fmt.Errorf("%v; moreover %v", err, gerr)
-	}
-	if !valley {
-		return gerr, false, nil
-	}
-	return gerr, false, append(sig, keyLocalMax)
+	return fmt.Errorf("lnL(%.10g) = %.10f but the grid distance %.6g has lnL = %.10f (a valley of the likelihood lies between them: %v)", d, ld, grid[best], lg[best], valley), false
 }
 
 func hasDifference(x, y string) bool {
@@ -546,7 +529,7 @@ func band(d float64) string {
 
 type verdict struct {
 	nonTrivial bool
-	flat       [][]int // 0: relations judged; 1: likelihood flat around d (ill-conditioned); 2: capped or excluded
+	flat       [][]int // 0: relations judged; 1: likelihood flat around d (ill-conditioned); 2: at the cap
 }
 
 // judge applies every clause of the statement but the permutation relations to the matrix d reported
@@ -611,39 +594,37 @@ func judge(a gen.Ali, cfg config, weights []float64, d [][]float64, o *pbt.Outco
 			o.Class("pair: %s", band(dij))
 			if dij >= distMax {
 				v.flat[i][j], v.flat[j][i] = 2, 2
-				continue // at the saturation cap: the statement does not constrain it further
+				// at the saturation cap: the statement does not constrain it further. Observation only
+				// (never a violation): does the likelihood peak below the cap?
+				if total > 0 {
+					low, high := math.Inf(-1), strict.logLk(entries, distMax)
+					for _, t := range grid {
+						if lt := strict.logLk(entries, t); t < distMax/2 {
+							low = math.Max(low, lt)
+						} else if t > distMax {
+							high = math.Max(high, lt)
+						}
+					}
+					if low > high+1e-4 {
+						o.Class("pair: capped although the likelihood peaks below 10 (not constrained by the statement)")
+					}
+				}
+				continue
 			}
 			var first error
-			var sig []string
 			ok, curved := false, false
 			for k, rd := range readings {
 				en := entries
 				if k > 0 {
 					en, _ = pairFreq(x, y, w, rd.sel)
 				}
-				e, c, sg := rd.maximal(en, dij)
+				e, c := rd.maximal(en, dij)
 				if e == nil {
 					ok, curved = true, c
 					break
 				}
-				if k == 0 {
-					first, sig = e, sg // signatures are judged under the reading the code implements
-				}
-			}
-			if !ok && len(sig) > 0 {
-				listed := true
-				for _, key := range sig {
-					listed = listed && pbt.Known(key)
-				}
-				if listed {
-					// known finding(s): the optimiser stopped early and/or on a local maximum that is
-					// not the highest one
-					for _, key := range sig {
-						o.Exclude(key)
-						o.Class("pair: known finding %s", key)
-					}
-					v.flat[i][j], v.flat[j][i] = 2, 2
-					continue
+				if first == nil {
+					first = e
 				}
 			}
 			if !ok {
@@ -717,8 +698,8 @@ func checkDist(c dCase) (o pbt.Outcome, err error) {
 		for j := 0; j < n; j++ {
 			pi, pj := c.RowPerm[i], c.RowPerm[j]
 			if v.flat[pi][pj] != 0 {
-				// at the cap, excluded, or the likelihood is flat around d (the position of its
-				// maximum is then not determined to 1e-4): not compared
+				// at the cap, or the likelihood is flat around d (the position of its maximum is
+				// then not determined to 1e-4): not compared
 				continue
 			}
 			if math.Abs(dr[i][j]-d[pi][pj]) > relTol {
@@ -753,79 +734,61 @@ func classes(o *pbt.Outcome, cfg config, weighted bool) {
 
 func TestDistances(t *testing.T) { pbt.Run(t, genDist, checkDist) }
 
-// ---- the known findings, deterministically ------------------------------------------------------------
+// ---- the repaired findings, as regression tests -----------------------------------------------------------
 
 type knownCase struct {
 	Ali gen.Ali `json:"ali"`
 	Cfg config  `json:"cfg"`
 }
 
-// runKnown runs the minimal reproduction of a finding: if it still fails, the line KNOWN-FINDING is
-// printed when the key is listed in KNOWN_FINDINGS.txt and a violation is reported when it is not;
-// nothing is printed when it no longer fails
-func runKnown(t *testing.T, key string, c knownCase, stillFails func(d [][]float64) (bool, string)) {
-	var m [][]float64
+// runRepro runs the minimal reproduction of a finding of props/c17/FINDINGS.md (all repaired in /repo);
+// it must pass and prints nothing then
+func runRepro(t *testing.T, c knownCase) {
+	var o pbt.Outcome
 	_, err := pbt.Eval(c, func(c knownCase) (pbt.Outcome, error) {
-		var e error
-		m, e = mlDist(c.Ali, c.Cfg, nil)
-		return pbt.Outcome{}, e
+		d, e := mlDist(c.Ali, c.Cfg, nil)
+		if e != nil {
+			return o, fmt.Errorf("no distance matrix: %v", e)
+		}
+		v, e := judge(c.Ali, c.Cfg, nil, d, &o)
+		o.NonTrivial = v.nonTrivial
+		return o, e
 	})
 	if err != nil {
-		pbt.Fail(t, c, "no distance matrix for the reproduction %s: %v", key, err)
+		pbt.Fail(t, c, "%v", err)
 		return
 	}
-	fails, what := stillFails(m)
-	var o pbt.Outcome
-	o.Class("reproduction %s fails=%v", key, fails)
 	pbt.Note(t, c, o)
-	if fails {
-		if key != "" && pbt.Known(key) {
-			pbt.KnownFinding(t, key, what)
-		} else {
-			pbt.Fail(t, c, "%s", what)
-		}
-	}
 	pbt.Complete(t)
 }
 
-// regression of the repaired finding a2d9778. Three sequences of one column: A and C differ, the third
-// row holds a gap, gap-site removal is on: no site is selected, the pair A/C has a difference but nothing
-// to estimate a distance from; it was reported at -1 and must lie in [0,20]
+// a2d9778. Three sequences of one column: A and C differ, the third row holds a gap, gap-site removal is
+// on: no site is selected, the pair A/C has a difference but nothing to estimate a distance from; it was
+// reported at -1 and must lie in [0,20]
 func TestKnownNoComparableSite(t *testing.T) {
-	c := knownCase{
+	runRepro(t, knownCase{
 		Ali: gen.Ali{Alphabet: "aa", Rows: []gen.Row{{Name: "s0", Seq: "A"}, {Name: "s1", Seq: "C"}, {Name: "s2", Seq: "-"}}},
 		Cfg: config{Model: "lg", ModelFreqs: true, RmGaps: true},
-	}
-	runKnown(t, "", c, func(d [][]float64) (bool, string) {
-		v := d[0][1]
-		return math.IsNaN(v) || v < 0 || v > distMax || d[1][0] != v,
-			fmt.Sprintf("rows A / C / - with gap-site removal: the pair A,C differs but has no comparable selected site and is reported at %g, outside [0,20]", v)
 	})
 }
 
-// two sequences of two columns, SH and AH, AB model with its own frequencies: the likelihood of the
-// pair has two local maxima (t = 0.1256, lnL = -6.2455 and t = 3.27, lnL = -6.9740); the second one is
-// reported
+// 20826a6. Two sequences of two columns, SH and AH, AB model with its own frequencies: the likelihood of
+// the pair has two local maxima (t = 0.1256, lnL = -6.2455 and t = 3.27, lnL = -6.9740); the second one
+// was reported
 func TestKnownLocalMaximum(t *testing.T) {
-	c := knownCase{
+	runRepro(t, knownCase{
 		Ali: gen.Ali{Alphabet: "aa", Rows: []gen.Row{{Name: "s0", Seq: "SH"}, {Name: "s1", Seq: "AH"}}},
 		Cfg: config{Model: "ab", ModelFreqs: true},
-	}
-	runKnown(t, keyLocalMax, c, func(d [][]float64) (bool, string) {
-		v := d[0][1]
-		if math.IsNaN(v) || v <= 0 || v >= distMax {
-			return true, fmt.Sprintf("rows SH / AH under AB: distance %g", v)
-		}
-		rd, e := newReading(c.Ali, c.Cfg, []float64{1, 1}, true)
-		if e != nil {
-			return true, "harness: " + e.Error()
-		}
-		en, _ := pairFreq("SH", "AH", []float64{1, 1}, rd.sel)
-		err, _, _ := rd.maximal(en, v)
-		if err == nil {
-			return false, ""
-		}
-		return true, fmt.Sprintf("rows SH / AH under AB: the reported distance %.6g is a local maximum of the likelihood only: %v", v, err)
+	})
+}
+
+// f7984a1. Two sequences of three columns, WAP and GAP, WAG with its own frequencies: the search stopped
+// at 0.56517 (lnL = -4.980795), 2.9 % away from the local maximum 0.54906 (lnL = -4.980668), because two
+// consecutive trial distances happened to be closer than 1e-6
+func TestKnownEarlyStop(t *testing.T) {
+	runRepro(t, knownCase{
+		Ali: gen.Ali{Alphabet: "aa", Rows: []gen.Row{{Name: "s0", Seq: "WAP"}, {Name: "s1", Seq: "GAP"}}},
+		Cfg: config{Model: "wag", ModelFreqs: true},
 	})
 }
 
